@@ -186,7 +186,7 @@ def generate():
     L.append("")
     L.append("end NQ.Gen.Epr")
     common.write_if_changed(os.path.join(common.GEN_DIR, "EprTables.lean"), "\n".join(L) + "\n")
-    return ["NQ.C11.tables_wellformed", "NQ.C11.ser_create_matches_fields", "NQ.C11.handles_match_fields"]
+    return []  # the obligations over these tables are listed among the plug-in's THEOREMS
 
 
 if __name__ == "__main__":
